@@ -220,6 +220,10 @@ def r2b_dispersion_formula(ctx):
                 return n.body if val else n.orelse
             return n
     var_expr = _PickDefault().visit(var_expr)
+    if xsq not in {n_.id for n_ in ast.walk(var_expr) if isinstance(n_, ast.Name)}:
+        ctx.violation("C04.R2b", f, rets[0], f"the variance `{U(var_expr)[:90]}` does not read the kept squares `{xsq}`: once the statistics are averaged over iterations the square of the "
+                      "averaged values replaces the averaged squares, and the dispersion is under-estimated")
+        return
     M, Ex, Ex2 = sp.symbols("m_old Ex Ex2", real=True)
 
     def hook(nz, e):
@@ -254,6 +258,60 @@ def r2b_dispersion_formula(ctx):
     reads = [x for x in ast.walk(f.node) if isinstance(x, ast.Subscript) and U(x.value) == st]
     ok = len(reads) >= 1 and all(isinstance(x.slice, ast.JoinedStr) and U(x.slice).endswith("_mean'") for x in reads)
     ctx.check(ok, "C04.R2b", f, reads[0] if reads else f.node, "old mean read as state[f'{name}_mean']", "the old mean is not read from `<parameter>_mean` of the state")
+
+
+def r2c_mixture_dispersion_formula(ctx):
+    """Mixture models: the dispersion of an individual parameter around the centre of each cluster is the same documented rule applied to
+    the kept statistics,  mean(S[x^2]) - 2 m_old mean(S[x]) + m_old^2  (means over the individuals): the collected *squares* are read.  After
+    the memory-less phase the kept values are averages over iterations, and the square of an average is not the average of the squares."""
+    ctx.rule("C04.R2c", "mixture dispersion update: E[x^2] - 2 m_old E[x] + m_old^2 from the kept values and the kept squares", 1)
+    f = ctx.ix.func("leaspy.models.utilities", "compute_ind_param_std_from_suff_stats_mixture", "C04.R2c")
+    a = f.node.args
+    pos = [p_.arg for p_ in a.args]
+    if len(pos) < 3:
+        raise AnalysisError("C04.R2c", "anchor changed: signature of compute_ind_param_std_from_suff_stats_mixture")
+    st, xs, xsq = pos[:3]
+    inl = Inliner(f.node)
+    # the variance: what is square-rooted
+    roots = [c for c in ast.walk(f.node) if isinstance(c, ast.Call) and ((isinstance(c.func, ast.Attribute) and c.func.attr == "sqrt" and not c.args)
+                                                                           or (U(c.func) in ("torch.sqrt", "compute_std_from_variance") and c.args))]
+    if len(roots) != 1:
+        ctx.unknown("C04.R2c", f, f.node, f"{len(roots)} square roots in the mixture dispersion update (1 confirmed)", construct="mixture variance")
+        return
+    var_expr = inl.resolve(roots[0].args[0] if roots[0].args else roots[0].func.value)
+    names = {n.id for n in ast.walk(var_expr) if isinstance(n, ast.Name)}
+    if xsq not in names:
+        ctx.violation("C04.R2c", f, roots[0], f"the variance `{U(var_expr)[:90]}` does not read the kept squares `{xsq}`: once the statistics are averaged over iterations the square of the "
+                      "averaged values replaces the averaged squares, and the dispersion is under-estimated", construct="mixture variance")
+        return
+    M, Ex, Ex2 = sp.symbols("m_old Ex Ex2", real=True)
+
+    def hook(nz, e):
+        if U(e.func) == "torch.mean" and e.args:
+            d = kwarg(e, "dim")
+            if d is None or U(d) not in ("0", "dim"):
+                raise NFUnsupported(f"mean not over the individuals: {U(e)}")
+            a0 = U(inl.resolve(e.args[0]))
+            if a0 == xs:
+                return Ex
+            if a0 == xsq:
+                return Ex2
+            raise NFUnsupported(f"mean of {a0}")
+        return None
+
+    class Nz(Normalizer):
+        def tosym(self, e):
+            if isinstance(e, ast.Subscript) and U(e.value) == st and isinstance(e.slice, ast.JoinedStr) and U(e.slice).endswith("_mean'"):
+                return M
+            return super().tosym(e)
+    try:
+        got = Nz({}, call_hook=hook)(var_expr)
+    except NFUnsupported as e:
+        ctx.unknown("C04.R2c", f, roots[0], f"variance expression outside the supported subset: {e}", construct="mixture variance")
+        return
+    ref = Ex2 - 2 * M * Ex + M ** 2
+    ctx.check(equal(got, ref), "C04.R2c", f, roots[0], "variance = E[x^2] - 2 m_old E[x] + m_old^2 (means over the individuals)",
+              f"variance normal form is {sp.expand(got)}, documented {sp.expand(ref)}", construct="mixture variance")
 
 
 def r3_noise(ctx):
@@ -520,6 +578,7 @@ def rules(ctx):
     r1_two_phase(ctx)
     r2_tables(ctx)
     r2b_dispersion_formula(ctx)
+    r2c_mixture_dispersion_formula(ctx)
     r3_noise(ctx)
     r4_in_force(ctx)
     r5_std_from_variance(ctx)
